@@ -58,12 +58,13 @@ def scope_table(tree):
 LOOP_MODES = ("plain", "M3", "M1", "M0", "M3+cond", "cond")
 
 
-def skeleton_script(tree, values, unused=frozenset(), ctrl_uses=None, loop_mode="plain"):
+def skeleton_script(tree, values, unused=frozenset(), ctrl_uses=None, loop_mode="plain", lits=False):
     """values: [(scope, dep, uses)], dep = "x" | ("arg", loop_scope) | ("val", j); uses = set of scopes.
     A value is created at the start of its scope's block; the use-node of a scope (a Sum over the
     scope's base value, the values used there and the control nodes of the scope) is created at its
     end and is the scope's result.  `unused` = indices (creation order) of control nodes whose
-    outputs nobody consumes; `ctrl_uses` = {control node index: scopes whose use-node additionally
+    outputs nobody consumes; `lits`: every scope makes its own `const(1.0)` (a plain Python literal, the
+    same in every scope) and uses it, every If takes a fresh `const(True)` as condition; `ctrl_uses` = {control node index: scopes whose use-node additionally
     consumes its output}.  Raises Invalid if a reference would precede the creation."""
     ctrl_uses = ctrl_uses or {}
     ctrl_id: dict[int, int] = {}
@@ -84,6 +85,10 @@ def skeleton_script(tree, values, unused=frozenset(), ctrl_uses=None, loop_mode=
         for k, (s, dep, uses) in enumerate(values):
             if s != sidx:
                 continue
+            if dep == "none":
+                block.append(["val", "const", []])
+                val_id[k] = fresh()
+                continue
             if dep == "x":
                 ref = 0
             elif dep[0] == "arg":
@@ -97,11 +102,20 @@ def skeleton_script(tree, values, unused=frozenset(), ctrl_uses=None, loop_mode=
             block.append(["val", "neg", [ref]])
             val_id[k] = fresh()
         refs = [base]
+        if lits:
+            block.append(["val", "pconst", [], 1.0])
+            pc = fresh()
+            block.append(["val", "castf", [pc]])
+            refs.append(fresh())
         for c in ctrls:
             if c[0] == "if":
+                cond = 1
+                if lits:
+                    block.append(["val", "pconst", [], True])
+                    cond = fresh()
                 eb, er = scope(c[1], base)
                 tb, tr = scope(c[2], base)
-                block.append(["if", 1, eb, er, tb, tr])
+                block.append(["if", cond, eb, er, tb, tr])
             else:
                 mc = {}
                 if loop_mode.startswith("M"):
@@ -154,7 +168,7 @@ def skeletons(max_bodies: int, k: int, rng: random.Random | None = None, sample:
         subsets = [frozenset(c) for r in range(len(scopes) + 1) for c in itertools.combinations(scopes, r)]
 
         def choices(kk):
-            deps = ["x"] + [("arg", l) for l in loops] + [("val", j) for j in range(kk)]
+            deps = ["x", "none"] + [("arg", l) for l in loops] + [("val", j) for j in range(kk)]
             return [(s, d, u) for s in scopes for d in deps for u in subsets]
 
         per = [choices(kk) for kk in range(k)]
@@ -169,9 +183,12 @@ def skeletons(max_bodies: int, k: int, rng: random.Random | None = None, sample:
                 # constant / absent trip count, with / without cond: one mode per skeleton in turn,
                 # plus the constant-trip-count-without-cond mode for every skeleton
                 modes = sorted({LOOP_MODES[idx % len(LOOP_MODES)], "M3"})
-            for mode in modes:
+            for mode in modes + ["lits"]:
+                if mode == "lits" and (k != 1 or idx % 2):
+                    continue
                 try:
-                    sc = skeleton_script(tree, list(vals), loop_mode=mode)
+                    sc = skeleton_script(tree, list(vals), loop_mode="M3" if mode == "lits" else mode,
+                                         lits=mode == "lits")
                 except Invalid:
                     continue
                 yield {"tree": tree, "values": [[s, d, sorted(u)] for s, d, u in vals], "loop_mode": mode}, sc
@@ -224,7 +241,17 @@ def random_script(rng: random.Random, size: int, leak_p: float, max_depth: int =
             budget[0] -= 1
             r = rng.random()
             if r < 0.55 or depth >= max_depth:
-                kind = rng.choice(["neg", "add", "add", "sum", "less", "const", "init"])
+                kind = rng.choice(["neg", "add", "add", "sum", "less", "const", "init", "plit"])
+                if kind == "plit":
+                    # a plain Python literal from a small pool (repeated all over the program), cast, used
+                    out.append(["val", "pconst", [], rng.choice([1.0, 2.0])])
+                    pc = fresh("p", [])
+                    out.append(["val", "castf", [pc]])
+                    cf = fresh("s", [])
+                    refs = [pick("f", open_bodies, local), cf]
+                    out.append(["val", "add", refs])
+                    local.append(fresh("f", deps_of(refs)))
+                    continue
                 if kind in ("const", "init"):
                     refs = []
                 elif kind == "neg":
